@@ -3,8 +3,11 @@
 (a) struct-literal census: `State { .. }` is built only in State::new_nvt_unchecked and <State as Clone>::clone
 (b) every call of new_nvt_unchecked is cut off from the entry by the success (`?` Continue) edges of
     Residual::validate_moles and state::validate applied to the same operands
-(c) inside `validate`: each of T, V and every N_i is tested with is_finite and is_sign_negative and the
-    invalid edge of every such test cannot reach the Ok(()) return
+(c) inside `validate`: for each of T, V and N_i and each class of invalid f64 (NaN, +inf, -inf, negative incl. -0.0) some
+    test applied to that parameter takes, for a value of that class, an edge that cannot reach the Ok(()) return.  Tests are
+    the std predicates is_finite / is_sign_negative / is_nan / is_infinite, predicate closures or one-argument bool helpers
+    built from them (summarised by evaluating their body for each class, rules/boolsum.py), and find / any / all / position
+    over the parameter's elements with such a predicate
 (d) echo: new_nvt_unchecked stores its temperature / volume / moles parameters (and their reduced values)
     in the same-named fields"""
 from cfg import Defs, reachable, strip_place, provenance
@@ -121,30 +124,48 @@ def run(F):
                 ok_blocks.add(bi)
         if not ok_blocks:
             r.fail("validate|no-ok", b.file_line(), "validate has no Ok(()) return")
-        seen = {}
-        for bi, t in b.calls():
-            p, tr, name = callee(t)
-            if name not in ("is_finite", "is_sign_negative", "is_nan", "is_infinite"):
-                continue
-            a = t["args"][0]
-            if a["k"] not in ("copy", "move"):
-                continue
-            params, _ = provenance(b, defs, [a["place"]["l"]], call_names=("to_reduced", "iter", "next", "into_iter", "deref", "clone", "as_ref", "borrow"))
-            res = t["dest"]["l"]
-            # the switch consuming the result (possibly through a Not)
+        # Value classes of an f64 and the answers of the std predicates on them.  A State may only be built from the last class.
+        CLASSES = {"nan": dict(is_finite=False, is_sign_negative=False, is_nan=True, is_infinite=False),
+                   "+inf": dict(is_finite=False, is_sign_negative=False, is_nan=False, is_infinite=True),
+                   "-inf": dict(is_finite=False, is_sign_negative=True, is_nan=False, is_infinite=True),
+                   "negative": dict(is_finite=True, is_sign_negative=True, is_nan=False, is_infinite=False),
+                   "non-negative finite": dict(is_finite=True, is_sign_negative=False, is_nan=False, is_infinite=False)}
+        INVALID = [c for c in CLASSES if c != "non-negative finite"]
+        PROV = ("to_reduced", "iter", "next", "into_iter", "deref", "clone", "as_ref", "borrow", "copied", "cloned", "view", "into_value")
+
+        def params_of(op):
+            if op.get("k") not in ("copy", "move"):
+                return set()
+            ls = [op["place"]["l"]]
+            # a tuple of call arguments `(x,)`: look through the aggregate
+            for d in defs.of(op["place"]["l"]):
+                if d[0] == "stmt" and d[4]["k"] == "agg":
+                    ls += [o["place"]["l"] for o in d[4]["ops"] if o.get("k") in ("copy", "move")]
+            return provenance(b, defs, ls, call_names=PROV)[0]
+
+        def switch_on(res):
+            """(block, true target, false target) of switches whose operand is `res`, possibly through Not / copies"""
+            out = []
             for sb, blk in enumerate(b.blocks):
                 tt = blk["term"]
                 if tt["k"] != "switch" or tt["op"]["k"] not in ("copy", "move"):
                     continue
-                dl = tt["op"]["place"]["l"]
+                src = tt["op"]["place"]["l"]
                 neg = False
-                src = dl
-                for d in defs.of(dl):
-                    if d[0] == "stmt" and d[4]["k"] == "unop" and d[4]["op"] == "Not" and d[4]["a"]["k"] in ("copy", "move"):
-                        src = d[4]["a"]["place"]["l"]
-                        neg = True
-                    elif d[0] == "stmt" and d[4]["k"] == "use" and d[4]["op"]["k"] in ("copy", "move"):
-                        src = d[4]["op"]["place"]["l"]
+                for _ in range(4):
+                    ds = defs.of(src)
+                    if src == res or len(ds) != 1 or ds[0][0] != "stmt":
+                        break
+                    rv = ds[0][4]
+                    if rv["k"] == "unop" and rv["op"] == "Not" and rv["a"]["k"] in ("copy", "move"):
+                        src = rv["a"]["place"]["l"]
+                        neg = not neg
+                    elif rv["k"] == "use" and rv["op"]["k"] in ("copy", "move"):
+                        src = rv["op"]["place"]["l"]
+                    elif rv["k"] == "discr":
+                        src = rv["place"]["l"]
+                    else:
+                        break
                 if src != res:
                     continue
                 tv = {v: bb for v, bb in tt["targets"]}
@@ -152,28 +173,73 @@ def run(F):
                 false_t = tv.get("0", tt["otherwise"])
                 if neg:
                     true_t, false_t = false_t, true_t
-                # invalid edge: is_finite false, is_sign_negative true
-                invalid = false_t if name == "is_finite" else true_t
-                leaks = reachable(b, start=invalid) & ok_blocks
-                n_checks += 1
-                for pr in params:
-                    key = (pr, name)
-                    good = not leaks
-                    seen[key] = seen.get(key, False) or good
-                    iid = "validate|%s(param %d)" % (name, pr)
-                    if good:
-                        r.inst(iid, t["span"], "ok")
-                    else:
-                        r.inst(iid, t["span"], "violation")
-                        r.fail("validate|%s|param%d|leaks" % (name, pr), t["span"],
-                               "validate: the invalid outcome of %s on parameter %d (%s) can still reach Ok(())" % (name, pr, b.lname(pr)))
+                out.append((sb, true_t, false_t))
+            return out
+
+        import boolsum
+        # check sites: (params tested, span, {class: edge target taken for a value of that class})
+        sites = []
+        for bi, t in b.calls():
+            p, tr, name = callee(t)
+            res = t["dest"]["l"]
+            if name in ("is_finite", "is_sign_negative", "is_nan", "is_infinite"):
+                params = params_of(t["args"][0])
+                for sb, true_t, false_t in switch_on(res):
+                    sites.append((params, t["span"], name, {c: (true_t if CLASSES[c][name] else false_t) for c in CLASSES}))
+                continue
+            pred = None
+            how = None
+            if name in ("call", "call_mut", "call_once") and len(t["args"]) == 2:
+                pred = F.body(boolsum.closure_def_of_type(b.opty(t["args"][0])) or "")
+                params = params_of(t["args"][1])
+                how = "pred"
+            elif name in ("find", "position", "any", "all") and len(t["args"]) == 2:
+                pred = F.body(boolsum.closure_def_of_type(b.opty(t["args"][1])) or "")
+                params = params_of(t["args"][0])
+                how = name
+            else:
+                cb = F.callee_body(t)
+                if cb is not None and cb["arg_count"] == 1 and (cb.lty(0) or {}).get("s") == "bool" and len(t["args"]) == 1:
+                    pred, params, how = cb, params_of(t["args"][0]), "pred"
+            if pred is None or not params:
+                continue
+            table = {c: boolsum.evaluate(F, pred, CLASSES[c]) for c in CLASSES}
+            if any(v is None for v in table.values()):
+                continue
+            for sb, true_t, false_t in switch_on(res):
+                # find / position: Some (variant 1) iff some element satisfies the predicate; any: true iff ...; all: false iff some
+                # element fails the predicate.  For an element of class c the edge below is the one taken *because of* that element.
+                if how == "all":
+                    edges = {c: (false_t if not table[c] else true_t) for c in CLASSES}
+                else:
+                    edges = {c: (true_t if table[c] else false_t) for c in CLASSES}
+                sites.append((params, t["span"], how, edges))
+        n_checks = len(sites)
+        leak_cache = {}
+
+        def leaks(start):
+            if start not in leak_cache:
+                leak_cache[start] = bool(reachable(b, start=start) & ok_blocks)
+            return leak_cache[start]
+
         for pr in range(1, b["arg_count"] + 1):
-            for name in ("is_finite", "is_sign_negative"):
-                if not seen.get((pr, name)):
-                    r.inst("validate|%s(param %d)" % (name, pr), b.file_line(), "violation")
-                    r.fail("validate|%s|param%d|missing" % (name, pr), b.file_line(),
-                           "validate no longer rejects parameter %d (%s) with %s: a non-finite or negative value would become a State" % (pr, b.lname(pr), name))
-    r.floor("validate predicate checks", n_checks, 6)
+            mine = [s_ for s_ in sites if pr in s_[0]]
+            for c in INVALID:
+                iid = "validate|%s(param %d)" % (c, pr)
+                rejecting = [s_ for s_ in mine if s_[3][c] is not None and not leaks(s_[3][c])]
+                if rejecting:
+                    r.inst(iid, rejecting[0][1], "ok", via=rejecting[0][2])
+                    continue
+                r.inst(iid, b.file_line(), "violation")
+                legacy = "is_finite" if c in ("nan", "+inf", "-inf") else "is_sign_negative"
+                if mine:
+                    r.fail("validate|%s|param%d|leaks" % (legacy, pr), mine[0][1],
+                           "validate: a %s value of parameter %d (%s) can still reach Ok(()): none of the %d tests applied to it rejects it" % (
+                               c, pr, b.lname(pr), len(mine)))
+                else:
+                    r.fail("validate|%s|param%d|missing" % (legacy, pr), b.file_line(),
+                           "validate no longer tests parameter %d (%s): a %s value would become a State" % (pr, b.lname(pr), c))
+    r.floor("validate predicate checks", n_checks, 3, exact=True)
 
     # ---------------- (d) echo in new_nvt_unchecked
     ub = [b for b in F.bodies if b.path.endswith("State::<E>::new_nvt_unchecked")]
